@@ -9,6 +9,7 @@ package stats
 import (
 	"encoding/json"
 	"fmt"
+	"log/slog"
 	"math/rand"
 	"net/http"
 	"net/http/httptest"
@@ -59,6 +60,11 @@ type c09Inst struct {
 // real Start() (handlers + hourly loop) is used, otherwise only the handlers
 // are registered so that the history stays sequential.
 func c09Open(file string, hour *atomic.Uint32, limitH uint32, enabled, startLoop bool) (in *c09Inst, err error) {
+	return c09OpenLog(file, hour, limitH, enabled, startLoop, slogutil.NewDiscardLogger())
+}
+
+// c09OpenLog is c09Open with a logger owned by the harness.
+func c09OpenLog(file string, hour *atomic.Uint32, limitH uint32, enabled, startLoop bool, logger *slog.Logger) (in *c09Inst, err error) {
 	defer func() {
 		if p := recover(); p != nil {
 			in, err = nil, fmt.Errorf("panic in New: %v", p)
@@ -70,7 +76,7 @@ func c09Open(file string, hour *atomic.Uint32, limitH uint32, enabled, startLoop
 	}
 	in = &c09Inst{handlers: map[string]http.HandlerFunc{}, hour: hour, file: file}
 	conf := Config{
-		Logger:            slogutil.NewDiscardLogger(),
+		Logger:            logger,
 		UnitID:            func() uint32 { return hour.Load() },
 		ConfigModified:    func() {},
 		ShouldCountClient: func([]string) bool { return true },
